@@ -37,10 +37,10 @@ SPEC = {
     "lean_files": ["PdModel/Prelude/StoreCfgMap.lean", "PdModel/Model/StoreFsm.lean", "PdModel/Lemmas/StoreFsm.lean",
                    "PdModel/Props/C14.lean", "PdModel/Spec/C14.lean", "PdModel/Driver/StoreFsm.lean"],
     "gen": {
-        "quick": {"args": ["-n", "150", "-nsrv", "40", "-len", "60"], "streams": 4},
-        "thorough": {"args": ["-n", "2500", "-nsrv", "300", "-len", "80"], "streams": 16},
+        "quick": {"args": ["-n", "150", "-nsrv", "40", "-ngate", "24", "-len", "60"], "streams": 4},
+        "thorough": {"args": ["-n", "2500", "-nsrv", "300", "-ngate", "100", "-len", "80"], "streams": 16},
     },
-    "search": {"args": ["-n", "400", "-nsrv", "40", "-len", "80"], "streams": 8},
+    "search": {"args": ["-n", "400", "-nsrv", "40", "-ngate", "40", "-len", "80"], "streams": 8},
     "nontrivial": nontrivial,
     "coverage_extra": coverage_extra,
     "rule": "sequence = reset (back end rc = bare RaftCluster on a memory kv / srv = in-process PD server with the real "
